@@ -51,7 +51,13 @@ def plan(tier, seed):
 def make_note(rng, api):
     from rv.note import NOTECMD
     vals = _NOTEVALS
-    return api.Note(note=NOTECMD(rng.choice(vals)), vel=rng.randint(0, 129), module=rng.randrange(65536),
+    cls = api.Note
+    if rng.random() < 0.12:
+        # an application's own note class, defined where it is used (not importable by name)
+        class TaggedNote(api.Note):
+            tag = "app"
+        cls = TaggedNote
+    return cls(note=NOTECMD(rng.choice(vals)), vel=rng.randint(0, 129), module=rng.randrange(65536),
                     ctl=rng.randrange(65536), val=rng.randrange(65536))
 
 
@@ -80,6 +86,10 @@ def new_pattern(rng, api, tracks, lines, attached):
     if attached:
         proj = api.Project()
         proj.new_module(api.m.Amplifier)
+        if rng.random() < 0.3:
+            # applications hang their own things on the objects: a callback, a handle, a locally defined helper object
+            proj.on_change = lambda *a: None
+            proj.app_state = type("AppState", (), {"pattern": p})()
         if rng.random() < 0.5:
             # a project with the heavier module types (curves, embedded projects, samples) that has been saved before
             for cls in rng.sample([api.m.MultiSynth, api.m.MetaModule, api.m.Sampler, api.m.WaveShaper, api.m.MultiCtl, api.m.SpectraVoice, api.m.Fmx], 3):
@@ -327,6 +337,32 @@ def foreign_owned_notes(res, rng, api):
                 case = {"setter": setter, "source_attached": attached_src, "destination_attached": attached_dst, "notes": "taken from another pattern"}
                 res.case(("foreign-notes", setter, attached_src, attached_dst))
                 res.count("foreign_owned_note_edits")
+                # once in a process that turns warnings into errors: whatever the library has to say about such notes, the
+                # edit is all-or-nothing there too
+                import warnings
+                dst2, _ = new_pattern(rng, api, 3, 4, attached_dst)
+                src2 = api.Pattern(tracks=3, lines=4)
+                for ln in range(4):
+                    for tr in range(3):
+                        src2.data[ln][tr].vel = 1 + ln * 3 + tr
+                if attached_src:
+                    api.Project().attach_pattern(src2)
+                before2 = dst2.raw_data
+                with warnings.catch_warnings():
+                    warnings.simplefilter("error")
+                    try:
+                        if setter == "fn":
+                            dst2.set_via_fn(lambda p, ln, tr: src2.data[ln][tr])
+                        else:
+                            dst2.set_via_gen(lambda p, new: ((ln, tr, src2.data[ln][tr]) for ln in range(4) for tr in range(3)))
+                        done = True
+                    except Warning:
+                        done = False
+                res.count("edits_under_warnings_as_errors")
+                if not done and dst2.raw_data != before2:
+                    res.violation(f"C19:not-atomic:{setter}", f"{setter} with warnings turned into errors raised, but the pattern's contents changed", dict(case, warnings="error"))
+                if done and [[n.vel for n in line] for line in dst2.data] != [[1 + ln * 3 + tr for tr in range(3)] for ln in range(4)]:
+                    res.violation(f"C19:wrong-note:{setter}", "notes taken from another pattern were not installed (warnings as errors)", case)
                 if setter == "fn":
                     dst.set_via_fn(lambda p, ln, tr: src.data[ln][tr])
                 else:
